@@ -34,6 +34,9 @@ def configs(tier, seed):
   # USE_WHITELIST with lists that admit everything: the admission rules are consulted for every datapoint
   for proto in ('line', 'udp', 'pickle'):
     cfgs.append(dict(name='%s/whitelist' % proto, proto=proto, shard=50, whitelist=True))
+  # the same in an interpreter started with -O (asserts compiled away)
+  for proto in ('line', 'udp', 'pickle'):
+    cfgs.append(dict(name='%s/python-O' % proto, proto=proto, shard=60, pyopt=1))
   for ml in (3 * 2 ** 20, 2048, 2 ** 20 + 1, 'default'):
     cfgs.append(dict(name='pickle/limit%s' % ml, proto='pickle', shard=99, maxlen=ml))
   return cfgs
